@@ -8,6 +8,8 @@ CONSTANTS
   PreFix = FALSE
   CoarseCancel = FALSE
   Modes = {"nowait", "wait"}
+  Modes2 = {"none"}
+  NeverExits = {}
   MaxPreempt = 1
 CONSTRAINT Bounded
 INVARIANTS Emit
